@@ -213,7 +213,9 @@ void run_multi(vf::Ctx& c)
     std::size_t total = 0;
     for (std::size_t k = 0; k != iters; ++k) { calls.push_back(t.pick(6) == 0 ? t.range(0, 2) : 10 + t.range(0, 150)); total += calls.back(); }
     T beta, minw;
-    switch (t.pick(4)) { case 0: beta = T(0.25); break; case 1: beta = T(1); break; case 2: beta = T(0.5); break; default: beta = static_cast<T>(0.05 + 0.95 * t.unit()); break; }
+    switch (t.pick(5)) { case 0: beta = T(0.25); break; case 1: beta = T(1); break; case 2: beta = T(0.5); break; case 3: beta = T(0); break; // (beta 0: the weights never adapt)
+                         default: beta = static_cast<T>(0.05 + 0.95 * t.unit()); break; }
+    if (beta == T(0)) { c.label("beta-zero"); }
     switch (t.pick(4)) { case 0: minw = T(0); break; case 1: minw = T(0.5) / T(channels); break; case 2: minw = T(0.01); break; default: minw = static_cast<T>(0.9 * t.unit() / channels); break; }
     if (!(minw < T(1) / T(channels))) { minw = T(0); }
     bool const user = t.flag();
